@@ -339,6 +339,38 @@ func runC11(p *eng.Prog, r *eng.Report, tier string) {
 			}
 			c.r.Check("C11.6", f, "derived address", "E-aff: "+a.fn+" keeps data["+a.lo+":"+a.hi+"] with lengths ("+a.ll+","+a.dl+")", cl.Pos(), okB, "literal is "+f.Norm(cl, nil))
 		}
+		// ... on every path: each return hands out such a literal (a fast path
+		// that returns the receiver "because there is nothing to strip" keeps
+		// the part it forgot about: example.net/balcony has no localpart but
+		// Domain() must still drop the resource)
+		g := f.Graph()
+		for _, rs := range g.Returns {
+			okR := false
+			if len(rs.Results) == 1 {
+				r := ast.Unparen(rs.Results[0])
+				if _, isLit := r.(*ast.CompositeLit); isLit {
+					okR = true
+				}
+				// or a local whose every reaching definition is such a literal
+				if idn, isId := r.(*ast.Ident); isId {
+					if v, _ := f.Info().ObjectOf(idn).(*types.Var); v != nil && eng.IsLocal(v) {
+						pt, _ := g.Where(rs)
+						ds := g.ReachingDefs(v, pt)
+						okR = len(ds) > 0
+						for _, d := range ds {
+							if d.RHS == nil {
+								okR = false
+								continue
+							}
+							if _, isLit := ast.Unparen(d.RHS).(*ast.CompositeLit); !isLit {
+								okR = false
+							}
+						}
+					}
+				}
+			}
+			c.r.Check("C11.6", f, "every return builds the derived address", "E-aff: every return of "+a.fn+" hands out the checked literal (never the receiver itself)", rs.Pos(), okR, "returns "+c.p.NodeStr(rs))
+		}
 	}
 	jidEqualRule(c, "C11.6")
 	c11LocalLenIsEnforcedLen(c, "C11.11")
@@ -431,6 +463,21 @@ func runC11(p *eng.Prog, r *eng.Report, tier string) {
 				}
 				c.r.Check("C11.7", f, "argument of Parse", "P: the decoded character data / attribute value is handed to Parse as decoded (no trimming, mapping or re-slicing)", pc.Pos(), raw, "Parse is applied to "+f.Norm(pc.Args[0], nil))
 			}
+			// the decoders reject nothing on their own account: what MarshalXML /
+			// MarshalXMLAttr wrote for an address that New accepted must decode.
+			// Every error a decoder returns is the result of a call (Parse, the
+			// XML decoder); a sentinel of its own ("too long": 3*1023 forgets the
+			// two separators) refuses addresses the constructors accept.
+			g := f.Graph()
+			for _, rs := range g.Returns {
+				if len(rs.Results) != 1 {
+					continue
+				}
+				pt, _ := g.Where(rs)
+				nrm := f.Norm(rs.Results[0], &pt)
+				own := strings.HasPrefix(nrm, "var:") || strings.HasPrefix(nrm, "errors.New(") || strings.HasPrefix(nrm, "fmt.Errorf(")
+				c.r.Check("C11.7", f, "decoder returns only errors of Parse or of the XML decoder", "P: the XML decoders add no rejection of their own to what Parse decides", rs.Pos(), !own, "returns "+nrm+": an address that New and Parse accept can be refused here")
+			}
 		}
 	}
 	for _, name := range []string{"JID.MarshalXML", "JID.MarshalXMLAttr"} {
@@ -514,6 +561,16 @@ func runC11(p *eng.Prog, r *eng.Report, tier string) {
 	// Domain(), the receiver itself): appending in place rewrites addresses
 	// that were handed out earlier. Every append-style call whose result
 	// becomes a JID's data starts from a slice allocated in the same function.
+	jidAppendsFresh(c, "C11.8")
+}
+
+// jidAppendsFresh: JIDs are values that share their backing array when copied
+// (Bare(), Domain(), struct copies, the session's own address): every
+// append-style call on a byte slice in package jid starts from a slice
+// allocated in the same function. Shared by the properties that compare or
+// hand out addresses (C02: the location check after a restart compares memory
+// with itself once a peer's header was decoded in place).
+func jidAppendsFresh(c *cx, id string) {
 	nap := 0
 	for _, f := range c.allFns() {
 		if !strings.HasPrefix(f.Short, "jid.") || f.Body == nil {
@@ -533,10 +590,10 @@ func runC11(p *eng.Prog, r *eng.Report, tier string) {
 			nap++
 			pt, _ := g.Where(cl)
 			okf, why := freshSlice(f, cl.Args[0], pt, map[*eng.Def]bool{})
-			c.r.Check("C11.8", f, "append target of "+cid, "E-alias: a JID's bytes are only ever appended to in a buffer allocated by the same call (copies of a JID share their backing array)", cl.Pos(), okf, why)
+			c.r.Check(id, f, "append target of "+cid, "E-alias: a JID's bytes are only ever appended to in a buffer allocated by the same call (copies of a JID share their backing array)", cl.Pos(), okf, why)
 		}
 	}
-	c.r.Floor("C11.8", "append-style calls on byte slices in package jid", nap, 4)
+	c.r.Floor(id, "append-style calls on byte slices in package jid", nap, 4)
 }
 
 func c11ParamIndex(f *eng.Fn, v *types.Var) (int, bool) {
